@@ -412,6 +412,16 @@ struct Viol {
     detail: String,
 }
 
+/// The consumer's side of the contract: apply an emitted event to the local book. A panic of the book
+/// while applying what the transformer ADMITTED is a delivery that was not applied - a violation, not a
+/// harness error.
+fn apply_to_book(book: &mut OrderBook, kind: &OrderBookEvent, what: &str) -> Result<(), Viol> {
+    catch(|| book.update(kind.clone())).map_err(|p| Viol {
+        sig: "panic_applying_admitted_update_to_local_book".into(),
+        detail: format!("{what}: OrderBook::update panicked: {p}"),
+    })
+}
+
 #[derive(Default)]
 struct Stats {
     messages: u64,
@@ -510,7 +520,7 @@ fn run_conn<R: RuleSet>(h: &History, conn: &Conn, only: Option<u8>, judge: bool,
                     let w = v.win(d.w as usize);
                     let s = conn.snapshot_ids[j];
                     let mon = &mut mons[j];
-                    mon.local.update(ev.kind.clone());
+                    apply_to_book(&mut mon.local, &ev.kind, &format!("message #{n} {text}"))?;
                     outcome = Outcome::Admitted;
                     let mut chain_viol: Option<Viol> = None;
                     if judge {
@@ -967,7 +977,9 @@ fn judge_stage2<R: RuleSet>(h: &History, stats: &mut Stats) -> Option<Viol> {
                 let Some(j) = keys_all.iter().position(|k| *k == me.instrument) else {
                     return Some(Viol { sig: "update_attributed_to_wrong_instrument".into(), detail: format!("stage 2: {:?}", me.instrument) });
                 };
-                books[j].update(me.kind.clone());
+                if let Err(v) = apply_to_book(&mut books[j], &me.kind, "stage 2") {
+                    return Some(v);
+                }
                 toks.push(match &me.kind {
                     OrderBookEvent::Snapshot(b) => Tok::Snap(j, b.sequence),
                     OrderBookEvent::Update(b) => Tok::Upd(j, b.sequence),
@@ -992,7 +1004,9 @@ fn judge_stage2<R: RuleSet>(h: &History, stats: &mut Stats) -> Option<Viol> {
     for ev in &observed {
         if let Event::Item(Ok(me)) = ev {
             let j = keys_all.iter().position(|k| *k == me.instrument).unwrap();
-            books[j].update(me.kind.clone());
+            if let Err(v) = apply_to_book(&mut books[j], &me.kind, "stage 2") {
+                return Some(v);
+            }
             stats.checks += 1;
             if let Err(d) = book_matches(&h.venues[j], &books[j]) {
                 return Some(Viol { sig: "book_differs_from_venue".into(), detail: format!("stage 2: {d}") });
@@ -1625,7 +1639,9 @@ where
                         return Some(Viol { sig: "init_delivered_update_before_the_snapshot".into(), detail: format!("stage 3 item #{n}: an update for {} reached the consumer before the REST snapshot", MARKETS[h.venues[j].market].2) });
                     }
                     (OrderBookEvent::Update(_), Some(b)) => {
-                        b.update(ev.kind.clone());
+                        if let Err(v) = apply_to_book(b, &ev.kind, &format!("stage 3 item #{n}")) {
+                            return Some(v);
+                        }
                         admitted += 1;
                     }
                 }
